@@ -123,17 +123,40 @@ fn remember(ctx: &mut Ctx, f: Fmt, s: &str) {
     }
 }
 
+/// a bare term also through the lexical term-only entry point (`parse_term`) + fold
+fn term_entry_failure(f: Fmt, s: &str) -> Option<String> {
+    let (a, b) = (enum_parse(f, s), lex_term_fold_parse(f, s));
+    match (&a, &b) {
+        (Out::Ok(x), Out::Ok(y)) if x == y => None,
+        _ => Some(format!("{:?}: enum parser = {} but lexical parse_term + fold = {}", s, a.short(), b.short())),
+    }
+}
+
 fn value_failure(f: Fmt, nd: &ND, variant: u64) -> Option<String> {
     let v = nd.build();
     let s = f.e().format_narsese(&v);
     if let Some(w) = string_failure(f, &s, true) {
         return Some(w);
     }
-    // the same value written with the derived copulas
-    let mut sugar = Sugar { derived_copulas: true, retrospective: true, interval_pad: 0, placeholder_suffix: String::new(), coin: if variant % 2 == 0 { None } else { Some(variant | 1) }, pinned: false };
+    // the same value written with the derived copulas (and, in some variants, zero-padded intervals and
+    // suffixed placeholders - other spellings of the same atoms)
+    let mut sugar = Sugar {
+        derived_copulas: true,
+        retrospective: true,
+        interval_pad: [0usize, 0, 2, 19, 23, 40][(variant % 6) as usize],
+        placeholder_suffix: ["", "", "x", "12"][((variant / 8) % 4) as usize].to_string(),
+        coin: if variant % 2 == 0 { None } else { Some(variant | 1) },
+        pinned: false,
+    };
     let toks = tokens(f, nd, &mut sugar);
     let text = toks.join(" ");
-    string_failure(f, &text, true)
+    if let Some(w) = string_failure(f, &text, true) {
+        return Some(w);
+    }
+    if matches!(nd, ND::Term(_)) {
+        return term_entry_failure(f, &s).or_else(|| term_entry_failure(f, &text));
+    }
+    None
 }
 
 fn check_value(ctx: &mut Ctx, f: Fmt, nd: &ND, variant: u64, family: &str) {
@@ -225,6 +248,28 @@ pub fn run(ctx: &mut Ctx) {
             }
         }
     }
+    // extreme sizes (on a thread with a large stack; not shrunk)
+    for f in ALL_FMT {
+        for (ci, (label, t)) in extreme_cases().into_iter().enumerate() {
+            idx += 1;
+            if !ctx.mine(idx) {
+                continue;
+            }
+            let nd = wrap_rotating(t, ci);
+            ctx.report.eval();
+            ctx.report.bump("family.extreme-sizes");
+            ctx.report.nontrivial(&format!("{}|extreme|{}|{}", f.name(), label, ci % 3));
+            match on_big_stack(move || value_failure(f, &nd, 0)) {
+                Some(None) => {}
+                Some(Some(w)) => ctx.report.violate(
+                    format!("C03|{}|extreme|{}", f.name(), label),
+                    format!("[{}] extreme case {}: {}", f.name(), label, w.chars().take(300).collect::<String>()),
+                    J::obj().set("kind", "extreme").set("format", f.name()).set("extreme", label.as_str()).set("wrap", ci as u64),
+                ),
+                None => ctx.report.violate(format!("C03|{}|extreme-crash|{}", f.name(), label), format!("[{}] the thread handling {} died", f.name(), label), J::obj().set("kind", "extreme").set("format", f.name()).set("extreme", label.as_str()).set("wrap", ci as u64)),
+            }
+        }
+    }
     ctx.report.note("exhaustive_subspaces", J::Arr(vec![J::from("vocabulary x format: every constructor / derived copula / punctuation / stamp form, minimal and nested, through both pipelines")]));
     let mut rng = ctx.rng(0xC03);
     let n = ctx.share(500_000, 10_000_000);
@@ -270,6 +315,15 @@ pub fn run(ctx: &mut Ctx) {
 pub fn replay(ctx: &mut Ctx, d: &J) -> Option<()> {
     let f = fmt_of(d)?;
     match jstr(d, "kind")?.as_str() {
+        "extreme" => {
+            let label = jstr(d, "extreme")?;
+            let nd = wrap_rotating(extreme_from_label(&label)?, d.get("wrap")?.as_i128()? as usize);
+            match on_big_stack(move || value_failure(f, &nd, 0)) {
+                Some(None) => {}
+                Some(Some(w)) => ctx.report.violate(format!("C03|{}|extreme|{}", f.name(), label), w, d.clone()),
+                None => ctx.report.violate(format!("C03|{}|extreme-crash|{}", f.name(), label), "the thread died".into(), d.clone()),
+            }
+        }
         "batch" => {
             let inputs: Vec<String> = d.get("inputs")?.as_arr()?.iter().filter_map(|x| x.as_str().map(|s| s.to_string())).collect();
             if let Some((_, w)) = batch_failure(f, &inputs) {
